@@ -97,7 +97,7 @@ class TlcResult:
 
 _RE_STATS = re.compile(r"(\d+) states generated, (\d+) distinct states found")
 _RE_INV = re.compile(r"Invariant (\S+) is violated")
-_RE_PROP = re.compile(r"Temporal properties were violated|Action property (\S+) is violated")
+_RE_PROP = re.compile(r"Temporal properties were violated|Action property (\S+) is violated|Temporal property (\S+) was violated")
 _RE_DEPTH = re.compile(r"The depth of the complete state graph search is (\d+)")
 _RE_COV = re.compile(r"^<(\w+) line \d+, col \d+ to line \d+, col \d+ of module (\w+)>: (\d+):(\d+)", re.M)
 
@@ -156,7 +156,7 @@ def tlc(module, cfg, workers=4, timeout=600, env_extra=None, simulate=None, dept
     else:
         m = _RE_PROP.search(r.out)
         if m:
-            r.violated = m.group(1) or "temporal"
+            r.violated = m.group(1) or m.group(2) or "temporal"
     if "Deadlock reached" in r.out and r.violated is None:
         r.violated = "deadlock"
     if "The postcondition" in r.out and "violated" in r.out.split("The postcondition")[1][:200]:
